@@ -318,7 +318,9 @@ class CallMixin:
             "preserves": tuple(ext.preserves) + tuple(getattr(self.unit, "ext_preserves", ()) if self.unit else ()),
         }
         if ext.requires and not self.in_spec:
-            renv = {f"a{i}": a for i, a in enumerate(args)}
+            # the precondition of an external may speak about the caller's variables too
+            renv = dict(self.spec_env_default())
+            renv.update({f"a{i}": a for i, a in enumerate(args)})
             renv.update({k: v for k, v in kwargs.items() if k != "**"})
             for i, cl in enumerate(ext.requires):
                 from .contracts import named as _named
@@ -328,8 +330,12 @@ class CallMixin:
                 self.assume_all(side)
                 self.oblige("CALL", f"{ext.name}.pre.{lab or i}@{ev['line']}", t, text, prop)
         protect = []
+        penv = None
         for spec_text in list(ext.protect):
-            protect.extend(self.eval_locs(spec_text, ev))
+            if penv is None:
+                penv = dict(self.spec_env_default())
+                penv.update({f"a{i}": a for i, a in enumerate(args)})
+            protect.extend(self.eval_locs(spec_text, ev, env=penv))
         for spec_text in list(self.unit.ext_protect if self.unit else []):
             try:
                 protect.extend(self.eval_locs(spec_text, ev))
@@ -367,7 +373,16 @@ class CallMixin:
         self.assume(z3.And(e >= 0, e < self.next_addr))
         c = cls_of(e)
         self.note_class_term(c)
-        if isinstance(ext.raises, (list, tuple)):
+        known = None
+        if isinstance(ext.raises, (list, tuple)) and len(ext.raises) == 1 and ext.raises[0].startswith("="):
+            # '=Name[:Base]': the exception is an instance of exactly that class (so that handlers for
+            # unrelated classes are known not to match)
+            nm, _, base = ext.raises[0][1:].partition(":")
+            if nm not in CLASSES.by_name:
+                CLASSES.declare(nm, (base or "Exception",))
+            self.assume(c == CLASSES.addr(nm))
+            known = nm
+        elif isinstance(ext.raises, (list, tuple)):
             for k in ext.raises:
                 if k not in CLASSES.by_name:
                     CLASSES.declare(k, ("Exception",))
@@ -378,7 +393,7 @@ class CallMixin:
         ev["exc"] = etv.r
         ev["heap_after"] = self.heap
         self.trace.append(ev)
-        raise PyRaise(etv, known_cls=None, origin=f"ext:{ext.name}")
+        raise PyRaise(etv, known_cls=known, origin=f"ext:{ext.name}")
 
     def havoc_heap(self, protect, modifies, ev, tag="X"):
         """External effect: everything may change except objects allocated by
@@ -455,6 +470,20 @@ class CallMixin:
         env = env if env is not None else self.spec_env_default()
         text = text.strip()
         ev_ = SpecEval(self, env, self.entry_heap, self.heap, {})
+        if text.startswith("ATTR:"):
+            # ATTR:<name>           the attribute <name> of EVERY object
+            # ATTR:<name> except x  ... of every object but x
+            name, _, exc = text[len("ATTR:"):].partition(" except ")
+            nm = z3.StringVal(name.strip())
+            ex_addr = ev_.addr_of(ev_.expr(exc.strip())) if exc.strip() else None
+
+            def pred(field, idx, _nm=nm, _ex=ex_addr):
+                if field not in ("fld", "has") or len(idx) != 2:
+                    return None
+                c = idx[1] == _nm
+                return c if _ex is None else z3.And(c, idx[0] != _ex)
+
+            return [("pred", pred)]
         if text.startswith("MODULE:"):
             # a module-level variable: MODULE:<dotted module>.<name>
             from .interp_stmt import module_addr
